@@ -122,10 +122,15 @@ def check(rep):
             except Exception:
                 continue   # scipy's sampler: C11
             nq += 1
-            ref = {"gauss": lambda: __import__("scipy").stats.norm.ppf(u, args[0], args[1]),
+            from scipy import stats as _st
+            ref = {"gauss": lambda: _st.norm.ppf(u, args[0], args[1]),
                    "uniform": lambda: int(args[0]) + u * (int(args[1]) - int(args[0])),
-                   "poisson": lambda: __import__("scipy").stats.poisson.ppf(u, args[0])}.get(fam)
-            if ref is not None and abs(v - ref()) > 1e-6 * max(1, abs(ref())):
+                   "poisson": lambda: _st.poisson.ppf(u, args[0]),
+                   # documented meaning log_normal(Mn, dispersity): ln m ~ N(ln Mn - ln(D)/2, ln D)
+                   "log_normal": lambda: _st.lognorm.ppf(u, s=math.sqrt(math.log(args[1])), scale=args[0] / math.sqrt(args[1])),
+                   # flory_schulz(a): smallest k with 1 - (1-a)^k (1 + k a) >= u
+                   "flory_schulz": lambda: next(k for k in range(1, 100000) if 1 - (1 - args[0]) ** k * (1 + k * args[0]) >= u - 1e-12)}.get(fam)
+            if ref is not None and abs(v - ref()) > 1e-4 * max(1, abs(ref())):
                 rep.fail("oracle", f"{t}: the draw for quantile {u} is {v}, the declared law's quantile is {ref()}", {"text": t, "u": u}, expected=ref(), observed=v)
     rep.coverage.update({"evaluations": evaluations + nq, "distinct_nontrivial": len(distinct), "parameter_sets": len(G), "scripted_quantile_draws": nq,
                          "rule": "six families x parameter regions (small/large mean, narrow/broad, random) for plumbing; two-block molecules with forced targets "
